@@ -179,6 +179,52 @@ static void do_demarshal (char *line)
   free (b);
 }
 
+/* ---- one huge array: "<elem type code char> <byte length of the array>"; the message is built here (a signal whose
+ * body is a single array of zeros of that fixed-size element type), little-endian; answers whether demarshal and the
+ * loader accept it */
+static void do_bigarr (char *line)
+{
+  char elem = line[0];
+  long nbytes = atol (line + 2);
+  char sig[3] = { 'a', elem, 0 };
+  int al = (elem == 'y') ? 1 : (elem == 'n' || elem == 'q') ? 2 : (elem == 'x' || elem == 't' || elem == 'd') ? 8 : 4;
+  DBusMessage *m0 = dbus_message_new_signal ("/a", "a.b", "M"), *m;
+  DBusMessageIter it, sub;
+  char *hdr; int hn;
+  unsigned char *b;
+  long pad = (al == 8) ? 4 : 0, blen = 4 + pad + nbytes, total;
+  DBusError e = DBUS_ERROR_INIT;
+  DBusMessageLoader *ld; DBusString *buf; int lcorrupt, lmsgs = 0;
+  dbus_uint32_t v;
+  dbus_message_iter_init_append (m0, &it);
+  dbus_message_iter_open_container (&it, DBUS_TYPE_ARRAY, sig + 1, &sub);
+  dbus_message_iter_close_container (&it, &sub);
+  dbus_message_set_serial (m0, 1);
+  if (!dbus_message_marshal (m0, &hdr, &hn)) abort ();
+  dbus_message_unref (m0);
+  { dbus_uint32_t bl0; memcpy (&bl0, hdr + 4, 4); hn -= (int) bl0; }   /* without the empty array's body: the header, padded to 8 */
+  total = hn + blen;
+  b = calloc (total, 1);
+  if (!b) abort ();
+  memcpy (b, hdr, hn);
+  dbus_free (hdr);
+  v = (dbus_uint32_t) blen; memcpy (b + 4, &v, 4);          /* body length (the harness runs little-endian) */
+  v = (dbus_uint32_t) nbytes; memcpy (b + hn, &v, 4);       /* array length */
+  ld = _dbus_message_loader_new ();
+  _dbus_message_loader_get_buffer (ld, &buf, NULL, NULL);
+  if (!_dbus_string_append_len (buf, (const char *) b, total)) abort ();
+  _dbus_message_loader_return_buffer (ld, buf);
+  _dbus_message_loader_queue_messages (ld);
+  lcorrupt = _dbus_message_loader_get_is_corrupted (ld);
+  { DBusMessage *x; while ((x = _dbus_message_loader_pop_message (ld)) != NULL) { lmsgs++; dbus_message_unref (x); } }
+  _dbus_message_loader_unref (ld);
+  m = dbus_message_demarshal ((const char *) b, total, &e);
+  printf ("{\"acc\":%d,\"lc\":%d,\"ln\":%d,\"hlen\":%d,\"blen\":%ld}\n", m != NULL, lcorrupt, lmsgs, hn, blen);
+  if (m) dbus_message_unref (m);
+  dbus_error_free (&e);
+  free (b);
+}
+
 /* ---- chunked feeding ---- */
 static void do_chunks (char *line)
 {
@@ -410,6 +456,7 @@ int main (int argc, char **argv)
       if (!strcmp (argv[1], "syntax")) do_syntax (line);
       else if (!strcmp (argv[1], "demarshal")) do_demarshal (line);
       else if (!strcmp (argv[1], "chunks")) do_chunks (line);
+      else if (!strcmp (argv[1], "bigarr")) do_bigarr (line);
       else if (!strcmp (argv[1], "edit")) do_edit (line);
       else if (!strcmp (argv[1], "build")) do_build (line);
       fflush (stdout);
